@@ -1261,6 +1261,7 @@ def targeted_search(R, tier):
             cases.append(hg.tet_pair(rng, cls))
     res, _ = run_workers(cases, "search", per=60)
     exprs, idx = [], []
+    pending, hits = [], [0]
     for i, (c, r) in enumerate(zip(cases, res)):
         if r is None or "exc" in r:
             R.failure(f"intersect_tetrahedron_pair raised {None if r is None else r.get('exc')}", c, site="intersect_tetrahedron_pair")
@@ -1276,16 +1277,36 @@ def targeted_search(R, tier):
                 idx.append((i, o))
         a, b = r["o12"], r["o21"]
         L = scale_of(c["t1"], c["t2"])
-        hits = [0]
         ok = True
         for o, ro, ta, tb in (("o12", a, c["t1"], c["t2"]), ("o21", b, c["t2"], c["t1"])):
             if "expect_disjoint" in c or ro.get("same") or not (ro["inter"] or ro.get("pre")) or not finite(ro["plane"]):
                 continue
-            ok = check_area(R, hits, ta, tb, ro["plane"], ro["inter"], ro.get("area", 0.0), dict(c, result=ro, order=o), o + ", search") and ok
+            ok = check_area(R, hits, ta, tb, ro["plane"], ro["inter"], ro.get("area", 0.0), dict(c, result=ro, order=o), o + ", search",
+                            key=i, pending=pending) and ok
         if ok and a["inter"] and b["inter"] and not a.get("same") and max(a["area"], b["area"]) > 1e-9 * L * L \
                 and set_dist(a["poly"], b["poly"]) > 1e-9 * L:
             route_polygon_failure(R, hits, "contact polygon depends on the order of the tetrahedra (search)", dict(c, o12=a, o21=b),
-                                  c["t1"], c["t2"], a["plane"], "intersect_tetrahedron_pair")
+                                  c["t1"], c["t2"], a["plane"], "intersect_tetrahedron_pair", key=i, pending=pending)
+    # the candidates of the F26 input class: ask the model whether the recorded algorithm behaves the same on them
+    stage_ok = {}
+    keys = sorted({p["key"] for p in pending})[:60]
+    m_exprs, m_idx = [], []
+    for i in keys:
+        c, r = cases[i], res[i]
+        for o, (ta, ea, tb, eb, Ea, Eb) in (("o12", (c["t1"], c["e1"], c["t2"], c["e2"], c["E1"], c["E2"])),
+                                            ("o21", (c["t2"], c["e2"], c["t1"], c["e1"], c["E2"], c["E1"]))):
+            if finite(r[o]["X1"], r[o]["X2"], r[o].get("plane0", [])):
+                m_exprs.append("(" + chain_expr(ta, ea, tb, eb, Ea, Eb, r[o]) + ", " + iso_expr(ta, ea, tb, eb, Ea, Eb, r[o]) + ")")
+                m_idx.append((i, o, ta, ea, tb, eb, Ea, Eb))
+    try:
+        outs = hg.coq_eval(cm, PID, MODEL_HEADER, m_exprs, "search_model", max(4, len(m_exprs) // cm.NCPU + 1), 1500)
+        dummy = dict(bit_exact_stage_comparisons=0, tolerance_stage_comparisons=0, chain_compared=0, chain_skipped_near_tie=0,
+                     max_dev=dict(plane=0.0, halfplanes=0.0, project=0.0, force=0.0, chain_poly=0.0, chain_force=0.0), unit_compared=0)
+        for (i, o, ta, ea, tb, eb, Ea, Eb), txt in zip(m_idx, outs):
+            stage_ok[(i, o)] = not compare_pair(hg.parse_coq_value(txt), cases[i], res[i][o], ta, ea, tb, eb, Ea, Eb, dummy, {})
+    except RuntimeError as e:
+        R.notes.append(f"search: model evaluation failed {str(e)[:200]}")
+    resolve_pending(R, hits, [p for p in pending if p["key"] in keys], stage_ok)
     try:
         vs = hg.coq_eval(cm, PID, CERT_HEADER, exprs, "search", max(8, len(exprs) // (3 * cm.NCPU) + 1), 1500)
         for (i, o), v in zip(idx, vs):
